@@ -21,6 +21,7 @@ func TestVerifReproC17OverlappingSetMax(t *testing.T) {
 			stableCap: 5, lastIssued: 5, maxCaps: 5}
 		r.cond = sync.NewCond(&r.mu)
 		r.ll = NewLimitListener(r.ln, 5)
+		r.sem = vfC17SemOf(r.ll)
 		go r.acceptLoop()
 		r.dial(8, false)
 		if !r.waitFor(func() bool { return r.counter >= 5 }) {
